@@ -4,7 +4,7 @@
    runner is getMux inside boot, every path to it passes the SAME ordered pattern list through NewConfig
    first, and nothing else in Run/Reload/stopServer can crash.  This file contains only statements. *)
 From Coq Require Import List NArith ZArith Bool.
-From GS Require Import LTS HttpCfg HttpServer HttpCfgProofs HttpProps CompositeCfg CompositeCfgProofs.
+From GS Require Import LTS HttpCfg HttpServer HttpCfgProofs HttpCtor HttpProps CompositeCfg CompositeCfgProofs.
 Import ListNotations.
 
 (* The code as it is (validated = false), faithful to the defect: for every initial configuration and every
@@ -61,6 +61,29 @@ Proof. exact crash_free_validated. Qed.
 Theorem C19_model_in_use : validated_now = false \/ validated_now = true.
 Proof. destruct validated_now; auto. Qed.
 
+(* ---- the public construction paths (model/HttpCfg.v: new_config = NewConfig with its functional options applied in
+   order; OCopy src = WithConfigCopy(src)) ----
+   Acceptance is decided by the route list handed to NewConfig and by nothing else: not by the options, not by
+   their order, not by anything a copied configuration has been through (a copy of a validated configuration does
+   not make other routes validated).  All option lists, copies of arbitrary configurations, chains of any length. *)
+Theorem C19_constructor_accepts_by_routes_only : forall validated mux_ok a rs opts,
+  (exists c, new_config validated mux_ok a rs opts = Some c) <-> new_config_ok validated mux_ok rs = true.
+Proof. exact new_config_accept_iff. Qed.
+
+(* the validating constructor (the code as it is): every product carries exactly the address and routes it was
+   given, a non-empty route list, and patterns the ServeMux accepts in that order *)
+Theorem C19_constructor_validates : forall mux_ok a rs opts c,
+  new_config true mux_ok a rs opts = Some c ->
+  addr c = a /\ routes c = rs /\ rs <> [] /\ mux_ok (map rpath rs) = true.
+Proof. exact new_config_validated. Qed.
+
+(* boot() rebuilds the configuration it holds through NewConfig(addr, routes, WithConfigCopy(cfg), WithRequestContext):
+   the product is that very configuration and exists iff the constructor accepts its routes - the guard of
+   LBootReject / LBootCreate / LBootCrash in the protocol model is the constructor's test *)
+Theorem C19_boot_rebuilds_through_constructor : forall validated mux_ok c,
+  boot_config validated mux_ok c = if new_config_ok validated mux_ok (routes c) then Some c else None.
+Proof. exact boot_config_spec. Qed.
+
 (* Composite runner: for every entry list - nil, empty, any length - boot, stopAllRunnables,
    Config.Equal and Reload (any old/new pair, empty on either side) perform no out-of-range index and never
    drive a WaitGroup negative; Run starts exactly the configured entries and Stop stops as many. *)
@@ -79,6 +102,9 @@ Print Assumptions C19_http_refuted_at_reload.
 Print Assumptions C19_http_repaired.
 Print Assumptions C19_model_in_use.
 Print Assumptions C19_composite.
+Print Assumptions C19_constructor_accepts_by_routes_only.
+Print Assumptions C19_constructor_validates.
+Print Assumptions C19_boot_rebuilds_through_constructor.
 
 (* ---- non-vacuity ---- *)
 Example C19_ex_good_accepted : dup_oracle (map rpath (routes c19_good)) = true.
@@ -87,6 +113,17 @@ Example C19_ex_dup_rejected_by_oracle : dup_oracle (map rpath (routes c19_dup)) 
 Proof. reflexivity. Qed.
 Example C19_ex_repaired_rejects : new_config_ok true dup_oracle (routes c19_dup) = false.
 Proof. reflexivity. Qed.
+(* "same settings, new routes": a copy of a validated configuration with a duplicate path is refused; with good
+   routes it is accepted and carries the copied timeouts, its own address and routes (satisfies the hypothesis of
+   C19_constructor_validates) *)
+Example C19_ex_copy_of_validated_does_not_validate :
+  new_config true dup_oracle [66%N] (routes c19_dup) [OCopy (Some c19_good)] = None /\
+  new_config true dup_oracle [66%N] (routes c19_dup) [ORead 7%Z; OCopy (Some c19_good); ONone; OCopy None] = None.
+Proof. split; vm_compute; reflexivity. Qed.
+Example C19_ex_copy_accepted :
+  new_config true dup_oracle [66%N] (routes c19_good) [ODrain 9%Z; OCopy (Some c19_good); OIdle 4%Z] =
+  Some {| addr := [66%N]; drain := 5%Z; read_to := 1%Z; write_to := 2%Z; idle_to := 4%Z; routes := routes c19_good |}.
+Proof. vm_compute. reflexivity. Qed.
 Example C19_ex_composite_empty : run_stop [] = Done ([], []) /\ reload [] [] = Done ([], []).
 Proof. split; reflexivity. Qed.
 Example C19_ex_composite_grow : reload [] [(1%N, 0%N); (2%N, 0%N)] = Done ([], [(1%N, 0%N); (2%N, 0%N)]).
